@@ -41,6 +41,10 @@ HOSTILE = [
     "attribute a = b",
     "attribute a = b => c = @cap\n(module) @_m { node n\n attr (n) a = 1 }",
     "attribute a = b => a = b\n(module) @_m { node n\n attr (n) a = 1 }",
+    "attribute a = b => c = { @_m for y in b }\n(module) @_m { node n\n attr (n) a = [1, 2] }",
+    "attribute a = b => c = [ @_m for y in b ]\n(module) @_m { node n\n attr (n) a = [1, 2] }",
+    "attribute a = b => c = [ y for y in @_m ]\n(module) @_m { node n\n attr (n) a = [1, 2] }",
+    "attribute a = b => c = @_m.x, d = (f [@_m])\n(module) @_m { node n\n attr (n) a = [1, 2] }",
     "attribute a = b => c = (d b)\n(module) @_m { node n\n attr (n) a = 1 }",
     "(module) @a @b @c { node n }",
     "(module) @a @b @c @d { print @a, @b, @c, @d }",
